@@ -1,16 +1,46 @@
-"""Run every translator (source -> coq/Gen/*.v).  Each check also runs its own translator."""
+"""Run every translator (source -> coq/Gen/*.v).  Each check also runs its own translator.
+
+Registry: (module in tools/, output file under coq/Gen/).  A translator that refuses its input
+(rs2v.Unsupported or anything else) is reported here and left to the owning check, which turns the
+refusal into a PROOF-BROKEN verdict; the stale output (if any) is removed so the theories depending
+on it cannot be checked against yesterday's source.
+"""
+import importlib
 import os
 import sys
 HERE = os.path.dirname(os.path.dirname(os.path.abspath(__file__)))
 sys.path.insert(0, os.path.join(HERE, "lib"))
+sys.path.insert(0, os.path.join(HERE, "tools"))
 import vlib
+
+REGISTRY = [
+    ("gen_c12", "NanBits.v"),
+    ("gen_c09", "GcHeader.v"),
+    ("gen_c16", "OpcodeCost.v"),
+    ("gen_c03", "OpcodeSig.v"),
+    ("gen_c06", "SlotFlags.v"),
+]
 
 
 def generate_all(repo):
-    import gen_c12
-    text, _ = gen_c12.generate(repo)
-    vlib.write_if_changed(os.path.join(vlib.COQ, "Gen", "NanBits.v"), text)
+    problems = []
+    for mod, out in REGISTRY:
+        if not os.path.exists(os.path.join(HERE, "tools", mod + ".py")):
+            continue
+        path = os.path.join(vlib.COQ, "Gen", out)
+        try:
+            m = importlib.import_module(mod)
+            text, _ = m.generate(repo)
+            vlib.write_if_changed(path, text)
+        except Exception as e:  # refusal: owning check reports it
+            problems.append("%s: %s" % (mod, e))
+            try:
+                os.remove(path)
+            except OSError:
+                pass
+    return problems
 
 
 if __name__ == "__main__":
-    generate_all(vlib.REPO)
+    for p in generate_all(vlib.REPO):
+        print("translator problem:", p)
